@@ -100,14 +100,26 @@ func runRecovery(ctx context.Context, cfg Config) error {
 	nodes := cfg.Cluster.Nodes()
 	sCtx := signal.Wrap(ctx, signal.WithInstrumentation(cfg.Instrumentation))
 	cfg.L.Info("recovering lost key-value operations", zap.Int("peer_node_count", len(nodes)-1))
-	for _, n := range nodes {
-		if n.Key == cfg.Cluster.HostKey() {
-			continue
+	// Peers are recovered one after the other: each recovery transaction decides which
+	// streamed operations supersede what is stored, so it must see what the previous
+	// peer's transaction committed.
+	sCtx.Go(func(ctx context.Context) error {
+		// The high-water mark is what this node held when it started: every peer is
+		// asked for everything from there on, whatever earlier peers delivered.
+		hw, err := loadHighWater(ctx, cfg)
+		if err != nil {
+			return err
 		}
-		sCtx.Go(func(ctx context.Context) error {
-			return runSingleNodeRecovery(ctx, cfg, n)
-		}, signal.WithKeyf("node_%v", n.Key))
-	}
+		for _, n := range nodes {
+			if n.Key == cfg.Cluster.HostKey() {
+				continue
+			}
+			if err := runSingleNodeRecovery(ctx, cfg, n, hw); err != nil {
+				return err
+			}
+		}
+		return nil
+	}, signal.WithKey("peers"))
 	err := sCtx.Wait()
 	if err != nil {
 		cfg.L.Error("recovery failed", zap.Error(err))
@@ -141,11 +153,8 @@ func runSingleNodeRecovery(
 	ctx context.Context,
 	cfg Config,
 	node node.Node,
+	hw version.Counter,
 ) error {
-	hw, err := loadHighWater(ctx, cfg)
-	if err != nil {
-		return err
-	}
 	cfg.L.Info("starting recovery for node", zap.Stringer("nodeKey", node.Key), zap.Int64("highWater", int64(hw)))
 	stream, err := cfg.RecoveryTransportClient.Stream(ctx, node.Address)
 	if err != nil {
@@ -166,6 +175,11 @@ func runSingleNodeRecovery(
 			}
 			count += len(resp.Operations)
 			for _, op := range resp.Operations {
+				// Same rule as gossip ingress: an operation that does not supersede
+				// the stored one must not replace it.
+				if sup, supErr := supersedes(ctx, tx, op); supErr != nil || !sup {
+					continue
+				}
 				if err = op.apply(ctx, tx); err != nil {
 					return err
 				}
